@@ -53,6 +53,8 @@ def run(ck):
     combos = [(n, d) for n in range(1, 6) for d in range(0, 8) if math.comb(n + d, d) <= ck.n(130, 800)]
     if ck.quick:
         combos = [c for c in combos if (c[0] + c[1]) % 2 == ck.seed % 2 or c in ((2, 4), (3, 6), (4, 3), (5, 3), (3, 3))]
+    # deep hierarchies (indices with two decimal digits) whatever the seed
+    combos += [(1, 12), (2, 10), (2, 11)] + ([] if ck.quick else [(3, 10), (2, 20), (3, 12), (4, 10)])
     for (n, d) in combos:
         gam = [rng.randint(1, 9) / 8.0 for _ in range(n)]
         try:
